@@ -17,7 +17,7 @@ FILES = {
     b'/p/core/a': b'trace__ "TOKEN_p_core_a";', b'/p/core/mod/a.hpp': b'trace__ "TOKEN_p_core_mod_a";', b'/p/core/b/a': b'trace__ "TOKEN_p_core_b_a";',
     b'/p/mod2/a.hpp': b'trace__ "SECRET_p_mod2_a";', b'/p/secret.txt': b'trace__ "SECRET_p_secret";', b'/secret': b'trace__ "SECRET_root";', b'/p/modx': b'trace__ "SECRET_modx";',
 }
-MAPPINGS = [(b'/p/mod', b'/x/mod'), (b'/p/alt', b'/x/mod'), (b'/p/core', b'/x')]      # nested prefixes; two roots for /x/mod, first wins
+MAPPINGS = [(b'/p/mod', b'/x/mod'), (b'/p/alt/', b'/x/mod'), (b'/p/core', b'/x')]      # nested prefixes; two roots for /x/mod, first wins
 ROOTS = [b'/p/mod', b'/p/alt', b'/p/core']
 
 def norm(path):
@@ -50,7 +50,7 @@ def ref_resolve(req, cur_virt):
     if best is None: return None
     rem = vn[len(best):]
     for phys, virt in MAPPINGS:
-        if virt == best and (phys + rem) in FILES: return phys + rem
+        if virt == best and (phys.rstrip(b'/') + rem) in FILES: return phys.rstrip(b'/') + rem
     return None
 
 def token_of(path):
@@ -60,7 +60,7 @@ def setup(h):
     vm = h.new_vm(); h.reset_obs()
     for phys, virt in MAPPINGS: h.add_mapping(vm, phys, virt)
     return vm
-CURS = [(b'', b''), (b'/p/mod/a.hpp', b'/x/mod/a.hpp'), (b'/p/core/b/a', b'/x/b/a')]
+CURS = [(b'', b''), (b'/p/mod/a.hpp', b'/x/mod/a.hpp'), (b'/p/core/b/a', b'/x/b/a'), (b'/p/alt/b', b'/x/mod/b')]     # the last one lives below the root that is mapped with a trailing separator
 
 def sym_case(h, n):
     def case():
@@ -97,6 +97,7 @@ FIXED = [  # (request, current index, expected physical file or None)
     (b'/p/mod/a.hpp', 0, b'/p/mod/a.hpp'), (b'/p/alt/only.hpp', 0, b'/p/alt/only.hpp'), (b'/p/core/b/a', 0, b'/p/core/b/a'),
     (b'sub/b.hpp', 1, b'/p/mod/sub/b.hpp'), (b'a.hpp', 1, b'/p/mod/a.hpp'), (b'../mod2/a.hpp', 1, None), (b'../secret.txt', 1, None), (b'../../secret', 1, None), (b'..\\mod2\\a.hpp', 1, None),
     (b'a', 2, b'/p/core/b/a'), (b'../a', 2, b'/p/core/a'), (b'../../secret.txt', 2, None),
+    (b'only.hpp', 3, b'/p/alt/only.hpp'), (b'a.hpp', 3, b'/p/mod/a.hpp'), (b'./only.hpp', 3, b'/p/alt/only.hpp'), (b'../secret.txt', 3, None),
     # requests that name a directory (or nothing): not a file, so not found - never a read of the directory
     (b'/x/mod', 0, 'DIR'), (b'/x/mod/', 0, 'DIR'), (b'/x/mod/sub', 0, 'DIR'), (b'', 0, 'DIR'), (b'.', 1, 'DIR'), (b'sub', 1, 'DIR'), (b'/p/mod', 0, 'DIR'), (b'/x', 0, 'DIR'), (b'..', 2, 'DIR'),
 ]
